@@ -21,7 +21,7 @@ func init() {
 	register(&Def{
 		ID:          "C17",
 		Technique:   "edge-condition extraction at the assigner call (reserved-prefix gate), accepted-idiom table for the service split, sort-dominates-return rule, writer/reader type agreement for context keys",
-		Explanation: "Decides: (D1) the assigner is consulted exactly on ¬builtin or builtin ∧ ¬HasPrefix(name, \"rpc.\"); on the reserved edge a handler is returned only under equality with a constant reserved name; builtin = ¬DisableBuiltin with nil options enabled; (D2) Map.Assign indexes with the unmodified name; ServiceMap.Assign splits with a first-separator idiom, returns nil without separator or service, and forwards the remainder unmodified; (D3) every Names method returns a slice that passed through sort.Strings after its last append; (D4) each context accessor's key has a WithValue writer storing exactly the type it asserts; the assigner is called with the task's own context after the request was attached; the handler's context carries the server; (D5) ServerInfo takes its method list from the assigner's Names(). (D6) the method member is decoded by encoding/json into the message itself; the start time is stored only when unset. (D7) the request predicate is exactly method ≠ \"\" ∧ no error ∧ no result; option accessors with a default supply it whenever the option is unset.",
+		Explanation: "Decides: (D1) the assigner is consulted exactly on ¬builtin or builtin ∧ ¬HasPrefix(name, \"rpc.\"); on the reserved edge a handler is returned only under equality with a constant reserved name; builtin = ¬DisableBuiltin with nil options enabled; (D2) Map.Assign indexes with the unmodified name; ServiceMap.Assign splits with a first-separator idiom, returns nil without separator or service, and forwards the remainder unmodified; (D3) every Names method returns a slice that passed through sort.Strings after its last append; (D4) each context accessor's key has a WithValue writer storing exactly the type it asserts; the assigner is called with the task's own context after the request was attached; the handler's context carries the server; (D5) ServerInfo takes its method list from the assigner's Names(). (D6) the method member is decoded by encoding/json into the message itself; the start time is stored only when unset. (D7) the request predicate is exactly method ≠ \"\" ∧ no error ∧ no result; option accessors with a default supply it whenever the option is unset. (D8) an accessor that forwards a ServerOptions/ClientOptions returns the caller's struct itself, never a partial copy; the Names methods append every key unconditionally.",
 		NotDecided:  []string{"behaviour for every unicode method name (map/string semantics assumed)", "metrics and start-time content of rpc.serverInfo"},
 		Assumptions: []string{"strings.SplitN/Cut/HasPrefix semantics"},
 		RuleText:    ruleText,
@@ -43,6 +43,8 @@ func init() {
 			ruleStartTimeOnlyWhenUnset(c)
 			ruleMethodDecodedAsJSON(c)
 			ruleRequestPredicateTable(c)
+			ruleOptionsForwardedWhole(c)
+			ruleNamesListEveryKey(c)
 			ruleAccessorDefaults(c, "TABLE.default", c.M.Pkg)
 		},
 	})
@@ -68,7 +70,7 @@ func init() {
 	register(&Def{
 		ID:          "C19",
 		Technique:   "status-constant table of the Getter, dynamic-type inventory and finiteness guard for query parameters, obtained-response/Body.Close pairing, goroutine accounting in jhttp.Channel",
-		Explanation: "Decides: (D1) the Getter writes 400 on the parse-error edge, 404 under ErrorCode == MethodNotFound, 500 otherwise, 200 on success, and bodies are checked json.Marshal results; (D2) every value stored into a parameter map is a string, int64, bool, []byte, nil or a float64 that — when it comes from strconv.ParseFloat — is guarded by ¬IsNaN ∧ ¬IsInf; (D3) a successful parse returns strings.Trim(path, \"/\") on its non-empty edge; (D4) every function that takes HTTP responses off the result channel closes their bodies, and the sender closes or forwards every response it obtains; (D5) the per-POST goroutine is registered with the WaitGroup before it starts and the closer goroutine waits for it before closing the result channel. (D6) every path through the Getter's ServeHTTP writes a response. (D7) option accessors with a default supply it whenever the option is unset (the HTTP client is never nil); a string stored by ParseQuery is a whole query value or encoding/json's decoding of it.",
+		Explanation: "Decides: (D1) the Getter writes 400 on the parse-error edge, 404 under ErrorCode == MethodNotFound, 500 otherwise, 200 on success, and bodies are checked json.Marshal results; (D2) every value stored into a parameter map is a string, int64, bool, []byte, nil or a float64 that — when it comes from strconv.ParseFloat — is guarded by ¬IsNaN ∧ ¬IsInf; (D3) a successful parse returns strings.Trim(path, \"/\") on its non-empty edge; (D4) every function that takes HTTP responses off the result channel closes their bodies, and the sender closes or forwards every response it obtains; (D5) the per-POST goroutine is registered with the WaitGroup before it starts and the closer goroutine waits for it before closing the result channel. (D6) every path through the Getter's ServeHTTP writes a response. (D7) option accessors with a default supply it whenever the option is unset (the HTTP client is never nil); a string stored by ParseQuery is a whole query value or encoding/json's decoding of it. (D8) no case folding in the typing of query values.",
 		NotDecided:  []string{"the typing cascade for every string (strconv's number language is wider than documented)", "result equivalence over the HTTP channel"},
 		Assumptions: []string{"net/http client contract: a non-nil response has a non-nil Body"},
 		RuleText:    ruleText,
@@ -78,6 +80,7 @@ func init() {
 			c.Clause("C19-D2/D3")
 			ruleQueryParams(c)
 			ruleQueryStringsWhole(c)
+			ruleQueryValuesCaseSensitive(c)
 			ruleQuerySliceBounds(c)
 			c.Clause("C19-D4")
 			ruleBodiesClosed(c)
